@@ -76,11 +76,12 @@ func checkC07(c *Ctx, r *Report) {
 func checkC11(c *Ctx, r *Report) {
 	ruleReaderProtocol(c, r, "reader-protocol", false)
 	ruleParserProtocol(c, r, "parser-protocol")
+	ruleParserDrains(c, r, "parser-drains")
 	ruleLexerStops(c, r, "lexer-stops")
 	ruleFullRune(c, r, "empty-chunk-not-eof")
 	r.rule("single-receive", 1, "the lexer receives from its input channel at exactly one place (next)")
 	c.ownership(r, "single-receive", "lexer", "inputs", lexerOwners["inputs"], false)
 	ruleChunkImmutable(c, r, "pipeline")
 	r.note("liveness under all goroutine schedules, 'within a few reads', behaviour under delays (needs a model checker: a different technique family); only the protocol shape is decided: who sends/receives/closes what, how often, on which paths")
-	r.assume("after a lexical failure or end of input the lexer goroutine stops receiving (rule lexer-stops); the parser consumes tokens up to a finaliser token")
+	r.assume("after a lexical failure or end of input the lexer goroutine stops receiving (rule lexer-stops); the parser consumes tokens up to a finaliser token (rule parser-drains; that every statement function returns to the toplevel loop is C06's parser-progress)")
 }
